@@ -423,6 +423,12 @@ def handle (op : String) (args : List String) : Option String := do
       | .ok (gs, libs) => pure ("ok " ++ resultHex gs libs)
       | .error .err => pure "err"
       | .error .panic => pure "panic"
+  | "c05.holds.readers_agree" =>
+      match args with
+      | n :: a :: rest => do
+        let n ← nat? n
+        pure (boolStr (rest.length + 1 == n && rest.all (· == a)))
+      | _ => none
   | "c05.holds.roundtrip" | "c05.holds.roundtrip_matless_after_mat" | "c05.holds.roundtrip_empty_mesh_not_last" =>
       let ((_, ms), r) ← scene? args
       let ((gs, _), _) ← result? r
